@@ -195,7 +195,14 @@ func main() {
 		guardChild()
 		return
 	}
+	if os.Getenv("C16_HUGE_CHILD") != "" {
+		hugeChild()
+		return
+	}
 	o := vhlib.ParseOpts()
+	// the two child processes (guard pages, > 2 GiB inputs) run concurrently with the main differential
+	hugeCh := make(chan guardResult, 1)
+	go func() { hugeCh <- runHugeChild(o) }()
 	rng := vhlib.NewRng(o.Seed)
 	thorough := o.Thorough()
 
@@ -411,6 +418,10 @@ func main() {
 	for _, v := range gres.Violations {
 		w.Violation(v.Label, v.What, v.Detail)
 	}
+	hres := <-hugeCh
+	for _, v := range hres.Violations {
+		w.Violation(v.Label, v.What, v.Detail)
+	}
 	names := make([]string, len(backends))
 	for i, be := range backends {
 		names[i] = be.name
@@ -425,6 +436,9 @@ func main() {
 	w.Notes["disagreeing_inputs_added_to_coq"] = extra
 	w.Notes["guard_page_hash_calls"] = gres.Calls
 	w.Notes["guard_page_child"] = gres.Status
+	w.Notes["huge_input_child(>2GiB)"] = hres.Status
+	w.Notes["huge_input_lengths"] = fmt.Sprint(hugeLengths(thorough))
+	w.Notes["huge_input_hash_calls"] = hres.Calls
 	w.Close(o, "one case = one byte string (length, pattern) with the distinct (Hash, Hash128) results the real code returned over all back ends "+
 		"("+strings.Join(names, ",")+"), sub-slice offsets, capacities and entry points (HashString/Hash128String on the same memory and on a copy), plus the xxh3_raw digests; "+
 		"the Coq checker evaluates Spec and Model on the bytes. distinct = distinct case terms; non-trivial = length >= 1. "+
